@@ -778,7 +778,13 @@ fn cmd_determinism(a: &Args) -> i32 {
     let _ = std::fs::create_dir_all(&dir);
     let mut bad = 0;
     let mut compared = 0;
+    let only = a.opts.get("prop").cloned();
     for prop in ["C03", "C05", "C08", "C09"] {
+        if let Some(o) = &only {
+            if o != prop {
+                continue;
+            }
+        }
         for s in 0..nseeds {
             let seed = 1000 + 7919 * s + gen::prop_tag(prop) % 1000;
             let mut logs: Vec<(usize, String)> = Vec::new();
@@ -818,7 +824,7 @@ fn cmd_determinism(a: &Args) -> i32 {
         }
     }
     let _ = std::fs::remove_dir_all(&dir);
-    println!("determinism: {} log comparisons ({} seeds x 4 properties x worker counts 1/5/16/16, {} runs each, separate processes), {} differing", compared, nseeds, runs, bad);
+    println!("determinism: {} log comparisons ({} seeds x {} x worker counts 1/5/16/16, {} runs each, separate processes), {} differing", compared, nseeds, only.as_deref().unwrap_or("4 properties"), runs, bad);
     if bad > 0 {
         2
     } else {
